@@ -234,7 +234,16 @@ func RunGLSL(c *Case) (o Outcome) {
 
 // RunHLSL compiles with the HLSL backend (c.Opts: sm = "5.1"|"6.0"|"6.2"|"6.6",
 // restrict, loopbound, zeroinit, fake = "1" for FakeMissingBindings instead of
-// an explicit binding map) and executes the text.
+// an explicit binding map, nwgconst = "0" to leave SpecialConstantsBinding
+// unset) and executes the text.
+//
+// Every buffer is bound at exactly the register the options imply: class from
+// the WGSL address space / access mode (uniform -> b, read-only storage -> t,
+// read_write storage -> u), register and space from the binding map (a
+// non-identity map: register = 2*binding + group + 3, space = group + 1) or,
+// with FakeMissingBindings, register = binding and space = group.  A resource
+// the text declares with any other register / class / space finds no buffer
+// and the run traps, so every execution is also a binding check (C17).
 func RunHLSL(c *Case) (o Outcome) {
 	defer func() {
 		if r := recover(); r != nil {
@@ -261,17 +270,28 @@ func RunHLSL(c *Case) (o Outcome) {
 	opts.ZeroInitializeWorkgroupMemory = c.Opts["zeroinit"] != "0"
 	opts.EntryPoint = c.Entry
 	init := c.InitialBuffers()
-	nwg := hlsl.BindTarget{Space: 7, Register: 0}
-	opts.SpecialConstantsBinding = &nwg
+	nwgSlot := ctext.Slot{Class: 'b', Index: 0, Space: 7}
+	if c.Opts["nwgconst"] != "0" {
+		opts.SpecialConstantsBinding = &hlsl.BindTarget{Space: 7, Register: 0}
+	}
+	target := func(k [2]int) (reg, space uint32) {
+		if optBool(c.Opts, "fake") {
+			return uint32(k[1]), uint32(k[0])
+		}
+		return uint32(2*k[1] + k[0] + 3), uint32(k[0] + 1)
+	}
 	if optBool(c.Opts, "fake") {
 		opts.FakeMissingBindings = true
+		opts.BindingMap = nil
 	} else {
+		opts.FakeMissingBindings = false
 		opts.BindingMap = map[hlsl.ResourceBinding]hlsl.BindTarget{}
 		for _, k := range sortedKeys(init) {
-			opts.BindingMap[hlsl.ResourceBinding{Group: uint32(k[0]), Binding: uint32(k[1])}] = hlsl.BindTarget{Space: uint8(k[0]), Register: uint32(k[1])}
+			r, s := target(k)
+			opts.BindingMap[hlsl.ResourceBinding{Group: uint32(k[0]), Binding: uint32(k[1])}] = hlsl.BindTarget{Space: uint8(s), Register: r}
 		}
 	}
-	text, _, err := hlsl.Compile(m, opts)
+	text, info, err := hlsl.Compile(m, opts)
 	if err != nil {
 		return Outcome{Rejected: "hlsl: " + err.Error()}
 	}
@@ -281,26 +301,33 @@ func RunHLSL(c *Case) (o Outcome) {
 		o.Text = text
 		return o
 	}
-	cfg := ctext.RunConfig{Entry: "", Buffers: map[ctext.Slot][]byte{}, BlockByName: map[string][]byte{}, NumWorkgroups: c.NumWG, StepLimit: c.StepBudget(),
-		NumWorkgroupsSlot: &ctext.Slot{Class: 'b', Index: 0, Space: 7}}
-	if optBool(c.Opts, "fake") {
-		// fake bindings: registers are invented by the backend; bind each
-		// resource of the text to the WGSL variable of the same name
-		names := ResourceNames(c.WGSL)
-		for _, r := range p.HLSLResources() {
-			if r.Space == 7 && r.Class == 'b' {
-				continue
-			}
-			if k, ok := names[strings.TrimRight(r.Name, "_")]; ok {
-				cfg.Buffers[ctext.Slot{Class: r.Class, Index: uint32(r.Register), Space: uint32(r.Space)}] = init[k]
-			}
+	entry := c.Entry
+	if info != nil && info.EntryPointNames[c.Entry] != "" {
+		entry = info.EntryPointNames[c.Entry]
+	}
+	cfg := ctext.RunConfig{Entry: entry, Buffers: map[ctext.Slot][]byte{}, NumWorkgroups: c.NumWG, StepLimit: c.StepBudget(), NumWorkgroupsSlot: &nwgSlot}
+	for _, gv := range m.GlobalVariables {
+		if gv.Binding == nil {
+			continue
 		}
-	} else {
-		for k, b := range init {
-			for _, cl := range []byte{'t', 'u', 'b'} {
-				cfg.Buffers[ctext.Slot{Class: cl, Index: uint32(k[1]), Space: uint32(k[0])}] = b
-			}
+		k := [2]int{int(gv.Binding.Group), int(gv.Binding.Binding)}
+		b, ok := init[k]
+		if !ok {
+			continue
 		}
+		var cls byte
+		switch {
+		case gv.Space == ir.SpaceUniform:
+			cls = 'b'
+		case gv.Space == ir.SpaceStorage && gv.Access == ir.StorageRead:
+			cls = 't'
+		case gv.Space == ir.SpaceStorage:
+			cls = 'u'
+		default:
+			continue
+		}
+		r, s := target(k)
+		cfg.Buffers[ctext.Slot{Class: cls, Index: r, Space: s}] = b
 	}
 	res, err := p.Run(cfg)
 	if oo, done := textOutcome("HLSL", res, err, c); done {
